@@ -262,7 +262,7 @@ theorem translated_lf_optimise_never_lowers [LinearOrder Y] (env : Env X Y)
 3, 5, 6, 7 -/
 def exEnv : Env Int Int :=
   { f := fun x => if x = 3 then .arith else .val (10 - (x - 5) ^ 2),
-    vle := fun a b => decide (a ≤ b), gt := fun a b => decide (b < a), fin := fun y => decide (-100 < y),
+    vle := fun a b => decide (a ≤ b), gt := fun a b => decide (b < a), ge := fun a b => decide (b ≤ a), fin := fun y => decide (-100 < y),
     isneginf := fun y => decide (y = -100), negInf := -100, posInfX := 1000, negInfX := -1000,
     multi := fun _ => true, atleast1d := id, squeeze := id, qsG := [1, 9], qsL := [3, 5, 6, 7],
     valueArray := 2, boundsLow := 0, boundsHigh := 8,
